@@ -364,6 +364,56 @@ theorem decay_eq (t : CType) (h : wf t = true) : M.decay t = Spec.decay t := by
   | mptr v q => cases v <;> rfl
   | _ => rfl
 
+/-- `decay` is idempotent ([meta.trans.other]: the result is never a reference, an array or a function type, and has no
+    top-level cv-qualifiers) -/
+theorem decay_idempotent (t : CType) (h : wf t = true) : M.decay (M.decay t) = M.decay t := by
+  have hu : wf (M.removeReference t) = true := by
+    cases t <;> simp_all [M.removeReference, wf_lref, wf_rref]
+  have hnr : isRef (M.removeReference t) = false := by
+    cases t <;> simp_all [M.removeReference, wf, isRef]
+  unfold M.decay
+  generalize M.removeReference t = u at hu hnr
+  cases u with
+  | lref e => simp [isRef] at hnr
+  | rref e => simp [isRef] at hnr
+  | base b q => rcases q with ⟨_ | _, _ | _⟩ <;> cases b <;> rfl
+  | ptr e q => rcases q with ⟨_ | _, _ | _⟩ <;> rfl
+  | mptr e q => rcases q with ⟨_ | _, _ | _⟩ <;> cases e <;> rfl
+  | arr e n =>
+    simp only [wf, Bool.and_eq_true, Bool.not_eq_true', bne_iff_ne] at hu
+    have hr : isRef e = false := hu.1.1.1.2
+    have hf : isFn e = false := hu.1.2
+    have hq : isQualFn e = false := by cases e <;> simp_all [isQualFn, isFn]
+    have he : M.removeReference e = e := by cases e <;> simp_all [M.removeReference, isRef]
+    have hp : mkPtr e = some (ptr e CV.none) := by simp [mkPtr, wf_ptr, hu.1.1.1.1.1, hr, hq]
+    have h1 : M.addPointer e = ptr e CV.none := by unfold M.addPointer; rw [he, hp]
+    simp only [M.isArray, M.removeExtent, ↓reduceIte, h1]
+    rfl
+  | uarr e =>
+    simp only [wf, Bool.and_eq_true, Bool.not_eq_true'] at hu
+    have hr : isRef e = false := hu.1.1.1.2
+    have hf : isFn e = false := hu.1.2
+    have hq : isQualFn e = false := by cases e <;> simp_all [isQualFn, isFn]
+    have he : M.removeReference e = e := by cases e <;> simp_all [M.removeReference, isRef]
+    have hp : mkPtr e = some (ptr e CV.none) := by simp [mkPtr, wf_ptr, hu.1.1.1.1, hr, hq]
+    have h1 : M.addPointer e = ptr e CV.none := by unfold M.addPointer; rw [he, hp]
+    simp only [M.isArray, M.removeExtent, ↓reduceIte, h1]
+    rfl
+  | fn r a q rq ne =>
+    cases hq : isQualFn (fn r a q rq ne)
+    · have hp : mkPtr (fn r a q rq ne) = some (ptr (fn r a q rq ne) CV.none) := by simp [mkPtr, wf_ptr, hu, hq, isRef]
+      have h1 : M.addPointer (fn r a q rq ne) = ptr (fn r a q rq ne) CV.none := by
+        unfold M.addPointer; simp only [M.removeReference]; rw [hp]
+      have h2 : M.isFunction (fn r a q rq ne) = true := rfl
+      simp only [M.isArray, h2, ↓reduceIte, h1, Bool.false_eq_true]
+      rfl
+    · have hp : mkPtr (fn r a q rq ne) = none := by simp [mkPtr, wf_ptr, hu, hq, isRef]
+      have h1 : M.addPointer (fn r a q rq ne) = fn r a q rq ne := by
+        unfold M.addPointer; simp only [M.removeReference]; rw [hp]
+      have h2 : M.isFunction (fn r a q rq ne) = true := rfl
+      simp only [M.isArray, h2, ↓reduceIte, h1, Bool.false_eq_true, M.removeReference]
+example : M.decay (M.decay (lref (arr (base .int ⟨true, false⟩) 3))) = M.decay (lref (arr (base .int ⟨true, false⟩) 3)) := by decide
+
 /-! ### sign modifications and underlying type ([meta.trans.sign], [meta.trans.other]) -/
 
 /-- `make_signed<T>` as tetl computes it (explicit specialisations for the standard integer types, `make_signed_by_size`
